@@ -14,7 +14,7 @@ Check appended_transparent :
   forall (parse_f64 : list byte -> option (list byte)) (lz_compress : list byte -> list byte)
          (lz_decompress : list byte -> nat -> option (list byte)),
   (forall d n, (length d <= n)%nat -> lz_decompress (lz_compress d) n = Some d) ->
-  forall cap, 1 <= cap -> cap <= 65536 -> forall id bits, (2 <= bits)%nat ->
+  forall cap, 1 <= cap -> cap <= 65536 -> forall id bits, (1 <= bits)%nat ->
   forall tpes (opss : list (list enc_op)) (encs : list encoder) first others e blocks ttb,
   nth_error tpes id = Some (EncBits bits) ->
   Forall2 (fun ops en => run_ops parse_f64 lz_compress cap (enc_new tpes) ops = Ok en) opss encs ->
